@@ -403,8 +403,11 @@ impl SuffixArrayBuilder {
 
     /// SA-IS (Suffix Array by Induced Sorting) algorithm implementation
     fn sais_construct(&self, text: &[u8]) -> Result<Vec<usize>> {
-        // Add recursion depth limit to prevent stack overflow
-        self.sais_construct_with_depth(text, 0)
+        // sais_construct_with_depth does not return a sorted array for most texts (even
+        // [15, 20, 22] comes back unsorted; it has no sentinel and names LMS substrings in a
+        // wrapping u8). Like the other algorithms here, use plain suffix comparison until
+        // the induced-sorting code is repaired, so that searches on the array are correct.
+        self.fallback_sort(text)
     }
     
     fn sais_construct_with_depth(&self, text: &[u8], depth: usize) -> Result<Vec<usize>> {
